@@ -1557,16 +1557,8 @@ example : KetWF (R := Int) { rows := 3, cols := 1, diags := [(0, fun _ => 2), (-
   rcases hd with rfl | rfl <;> simp
 end diaInnerThm
 
-section diaHermThm
-variable {R : Type} [CommRing R] [StarRing R] [DecidableEq R]
-
-/-- the kernel's comparisons with the tolerance taken to zero -/
-def exactConjEq (a b : R) : Bool := decide (a = star b)
-def exactIsZero (a : R) : Bool := decide (a = 0)
-
-/-- square, distinct stored offsets, every stored diagonal inside the matrix -/
-def Dia.SquareWF (m : Dia R) : Prop :=
-  m.rows = m.cols ∧ (m.diags.map (·.1)).Nodup ∧ ∀ d ∈ m.diags, -(m.rows : Int) < d.1 ∧ d.1 < (m.rows : Int)
+section diaFind
+variable {R : Type} [CommRing R]
 
 theorem find?_reverse_nodup (l : List (Int × (Nat → R))) (h : (l.map (·.1)).Nodup) (o : Int) :
     l.reverse.find? (fun d => d.1 == o) = l.find? (fun d => d.1 == o) := by
@@ -1607,6 +1599,19 @@ theorem find?_of_mem_nodup (l : List (Int × (Nat → R))) (h : (l.map (·.1)).N
       have hb : (x.1 == o) = false := by simpa using hx
       rw [List.find?_cons, hb]
       exact ih h.2 hmem
+
+end diaFind
+
+section diaHermThm
+variable {R : Type} [CommRing R] [StarRing R] [DecidableEq R]
+
+/-- the kernel's comparisons with the tolerance taken to zero -/
+def exactConjEq (a b : R) : Bool := decide (a = star b)
+def exactIsZero (a : R) : Bool := decide (a = 0)
+
+/-- square, distinct stored offsets, every stored diagonal inside the matrix -/
+def Dia.SquareWF (m : Dia R) : Prop :=
+  m.rows = m.cols ∧ (m.diags.map (·.1)).Nodup ∧ ∀ d ∈ m.diags, -(m.rows : Int) < d.1 ∧ d.1 < (m.rows : Int)
 
 /-- what a successful check of the stored diagonal `d` (number `di`, offset ≠ 0) says about its entries -/
 theorem diagOk_spec (m : Dia R) (hwf : m.SquareWF) (di : Nat) (d : Int × (Nat → R)) (hd : m.diags[di]? = some d)
@@ -1855,6 +1860,151 @@ theorem ishermDia_iff (m : Dia R) (hwf : m.SquareWF) :
 theorem ishermDia_nonsquare (m : Dia R) (h : m.rows ≠ m.cols) : ishermDia exactConjEq exactIsZero m = false := by
   unfold ishermDia; rw [if_pos h]
 end diaHermThm
+
+section diaExpectThm
+variable {R : Type} [CommRing R]
+
+theorem sum_range_window (n a len : Nat) (h : a + len ≤ n) (f : Nat → R) :
+    ((List.range n).map fun c => if a ≤ c ∧ c < a + len then f c else 0).sum
+      = ((List.range len).map fun i => f (i + a)).sum := by
+  induction len with
+  | zero =>
+    simp only [List.range_zero, List.map_nil, List.sum_nil]
+    apply sum_map_zero'
+    intro c _
+    rw [if_neg (by omega)]
+  | succ len ih =>
+    have hsplit : ∀ c : Nat, (if a ≤ c ∧ c < a + (len + 1) then f c else 0)
+        = (if a ≤ c ∧ c < a + len then f c else 0) + (if ((c : Nat) : Int) = ((a + len : Nat) : Int) then f c else 0) := by
+      intro c
+      by_cases h1 : a ≤ c ∧ c < a + len
+      · rw [if_pos h1, if_pos (by omega), if_neg (by omega), add_zero]
+      · by_cases h2 : c = a + len
+        · rw [if_neg h1, if_pos (by omega), if_pos (by omega), zero_add]
+        · rw [if_neg h1, if_neg (by omega), if_neg (by omega), add_zero]
+    simp only [hsplit]
+    rw [List.sum_map_add, ih (by omega), sum_range_single n ((a + len : Nat) : Int) f, if_pos (by omega),
+      List.range_succ, List.map_append, List.sum_append]
+    simp only [List.map_cons, List.map_nil, List.sum_cons, List.sum_nil, add_zero, Int.toNat_natCast]
+    rw [Nat.add_comm len a]
+
+theorem sum4_comm {α β γ δ : Type} (l1 : List α) (l2 : List β) (l3 : List γ) (l4 : List δ) (F : α → β → γ → δ → R) :
+    (l1.map fun r => (l2.map fun c => (l3.map fun a => (l4.map fun b => F r c a b).sum).sum).sum).sum
+      = (l3.map fun a => (l4.map fun b => (l1.map fun r => (l2.map fun c => F r c a b).sum).sum).sum).sum := by
+  calc _ = (l1.map fun r => (l3.map fun a => (l2.map fun c => (l4.map fun b => F r c a b).sum).sum).sum).sum := by
+        congr 1; apply List.map_congr_left; intro r _
+        exact sum_comm_list l2 l3 _
+    _ = (l3.map fun a => (l1.map fun r => (l2.map fun c => (l4.map fun b => F r c a b).sum).sum).sum).sum :=
+        sum_comm_list l1 l3 _
+    _ = (l3.map fun a => (l1.map fun r => (l4.map fun b => (l2.map fun c => F r c a b).sum).sum).sum).sum := by
+        congr 1; apply List.map_congr_left; intro a _
+        congr 1; apply List.map_congr_left; intro r _
+        exact sum_comm_list l2 l4 _
+    _ = _ := by
+        congr 1; apply List.map_congr_left; intro a _
+        exact sum_comm_list l1 l4 _
+
+/-- **`trace_dia` is the trace** -/
+theorem traceDia_abs (m : Dia R) (h : (m.diags.map (·.1)).Nodup) :
+    traceDia m = ((List.range m.cols).map fun i => m.abs i i).sum := by
+  unfold traceDia
+  have : ∀ i : Nat, m.abs i i = match m.diags.find? (fun d => d.1 == 0) with
+      | some d => d.2 i
+      | none => 0 := by
+    intro i
+    rw [Dia.abs_find m h i i, sub_self]
+  simp only [this]
+  cases m.diags.find? (fun d => d.1 == 0) with
+  | none => simp
+  | some d => rfl
+
+/-- **`expect_dia` on a ket is `Σ_r Σ_c conj(ψ_r) op_rc ψ_c`** -/
+theorem expectDiaKet_abs (conj : R → R) (hc : conj 0 = 0) (op state : Dia R) (hsq : op.rows = op.cols)
+    (hs : KetWF state op.cols) (ho : (op.diags.map (·.1)).Nodup) :
+    expectDiaKet conj op state
+      = ((List.range op.rows).map fun r => conj (state.abs r 0) *
+          ((List.range op.cols).map fun c => op.abs r c * state.abs c 0).sum).sum :=
+  innerOpDiaCore_ket conj hc state op state (by rw [hsq]; exact hs) hs ho
+
+/-- the contribution of one pair of stored diagonals to `tr(op · state)` -/
+theorem dm_pair_sum (n : Nat) (dop ds : Int × (Nat → R)) (hop : -(n : Int) < dop.1 ∧ dop.1 < n)
+    (hds : -(n : Int) < ds.1 ∧ ds.1 < n) :
+    ((List.range n).map fun (r : Nat) => ((List.range n).map fun (c : Nat) =>
+        (if dop.1 = (c : Int) - (r : Int) then dop.2 c else 0) * (if ds.1 = (r : Int) - (c : Int) then ds.2 r else 0)).sum).sum
+      = if dop.1 = -ds.1 then
+          ((List.range (min (min (n : Int) ((n : Int) + dop.1) - max 0 dop.1) (min (n : Int) ((n : Int) + ds.1) - max 0 ds.1)).toNat).map fun i =>
+            dop.2 (i + (max 0 dop.1).toNat) * ds.2 (i + (max 0 ds.1).toNat)).sum
+        else 0 := by
+  by_cases ho : dop.1 = -ds.1
+  · rw [if_pos ho, sum_comm_list (List.range n) (List.range n)]
+    have hinner : ∀ c : Nat, ((List.range n).map fun (r : Nat) =>
+        (if dop.1 = (c : Int) - (r : Int) then dop.2 c else 0) * (if ds.1 = (r : Int) - (c : Int) then ds.2 r else 0)).sum
+        = if 0 ≤ (c : Int) - dop.1 ∧ (c : Int) - dop.1 < n then dop.2 c * ds.2 ((c : Int) - dop.1).toNat else 0 := by
+      intro c
+      rw [← sum_range_single n ((c : Int) - dop.1) (fun r => dop.2 c * ds.2 r)]
+      congr 1
+      apply List.map_congr_left
+      intro r _
+      by_cases hr : ((r : Nat) : Int) = (c : Int) - dop.1
+      · rw [if_pos (by omega), if_pos (by omega), if_pos hr]
+      · rw [if_neg (by omega), zero_mul, if_neg hr]
+    simp only [hinner]
+    have hwin : ∀ c : Nat, c ∈ List.range n →
+        (if 0 ≤ (c : Int) - dop.1 ∧ (c : Int) - dop.1 < n then dop.2 c * ds.2 ((c : Int) - dop.1).toNat else 0)
+        = (if (max 0 dop.1).toNat ≤ c ∧ c < (max 0 dop.1).toNat +
+              (min (min (n : Int) ((n : Int) + dop.1) - max 0 dop.1) (min (n : Int) ((n : Int) + ds.1) - max 0 ds.1)).toNat
+            then dop.2 c * ds.2 ((c : Int) - dop.1).toNat else 0) := by
+      intro c hc
+      have hcn := List.mem_range.mp hc
+      by_cases h1 : 0 ≤ (c : Int) - dop.1 ∧ (c : Int) - dop.1 < n
+      · rw [if_pos h1, if_pos (by omega)]
+      · rw [if_neg h1, if_neg (by omega)]
+    rw [List.map_congr_left hwin,
+      sum_range_window n _ _ (by omega) (fun c => dop.2 c * ds.2 ((c : Int) - dop.1).toNat)]
+    congr 1
+    apply List.map_congr_left
+    intro i hi
+    have hin := List.mem_range.mp hi
+    have : (((i + (max 0 dop.1).toNat : Nat) : Int) - dop.1).toNat = i + (max 0 ds.1).toNat := by omega
+    rw [this]
+  · rw [if_neg ho]
+    apply sum_map_zero'
+    intro r _
+    apply sum_map_zero'
+    intro c _
+    by_cases h1 : dop.1 = (c : Int) - (r : Int)
+    · rw [if_pos h1, if_neg (by omega), mul_zero]
+    · rw [if_neg h1, zero_mul]
+
+/-- **`expect_dia` on a density matrix is `tr(op · state) = Σ_r Σ_c op_rc · state_cr`**, for any stored order of the
+diagonals of both -/
+theorem expectDiaDm_abs (op state : Dia R) (hop : op.SquareWF) (hst : state.SquareWF) (hn : state.rows = op.rows) :
+    expectDiaDm op state
+      = ((List.range op.rows).map fun r => ((List.range op.rows).map fun c => op.abs r c * state.abs c r).sum).sum := by
+  obtain ⟨hsq1, hnd1, hrg1⟩ := hop
+  obtain ⟨hsq2, hnd2, hrg2⟩ := hst
+  have hexp : ∀ r c : Nat, op.abs r c * state.abs c r
+      = (op.diags.map fun dop => (state.diags.map fun ds =>
+          (if dop.1 = (c : Int) - (r : Int) then dop.2 c else 0) * (if ds.1 = (r : Int) - (c : Int) then ds.2 r else 0)).sum).sum := by
+    intro r c
+    rw [Dia.abs_eq_sum op hnd1, Dia.abs_eq_sum state hnd2, sum_mul_sum_list]
+  simp only [hexp]
+  rw [sum4_comm]
+  unfold expectDiaDm
+  congr 1
+  apply List.map_congr_left
+  intro dop hdop
+  congr 1
+  apply List.map_congr_left
+  intro ds hds
+  have h1 := hrg1 dop hdop
+  have h2 := hrg2 ds hds
+  rw [dm_pair_sum op.rows dop ds h1 (by rw [← hn]; exact h2)]
+  have e1 : (op.cols : Int) = op.rows := by exact_mod_cast hsq1.symm
+  have e2 : (state.cols : Int) = op.rows := by rw [← hn]; exact_mod_cast hsq2.symm
+  have e3 : (state.rows : Int) = op.rows := by exact_mod_cast hn
+  simp only [e1, e2, e3]
+end diaExpectThm
 
 /-- **a specialisation constructed by inserting conversions computes the same operation**: if the
 registered implementation refines `f` on the meanings and every converter preserves the meaning, so
